@@ -177,7 +177,7 @@ def tasks_for(tier, seed):
     quick = tier == 'quick'
     rng = np.random.default_rng([int(seed), 171])
     shapes = ['d3_bal', 'd3_chain', 'd2_bal', 'd2_single_child', 'd3_mid_single', 'd1_four', 'd2_top_single',
-              'd3_top_single']
+              'd3_top_single', 'd3_reuse', 'd2_reuse']
     encs = ['dense', 'csr', 'csc']
     factors = dict(bootstrap_factor=[0.3, 0.6, 1.0], bootstrap_iteration=[1, 8], n_runners_up=[0, 3],
                    chunk_size=[5, 18], n_processors=[1, 2], rng_seed=[11, 2024])
@@ -196,7 +196,7 @@ def tasks_for(tier, seed):
 
 def run(tier='quick', seed=0, jobs=1):
     seed = int(seed or 0)
-    bound = ("8 taxonomy shapes (depth 1-3, single-child parents, single top node)" +
+    bound = ("10 taxonomy shapes (depth 1-3, single-child parents, single top node, labels reused across levels)" +
              ("" if tier == 'quick' else " + 8 random trees") +
              ", 14 query cells x <= 27 genes, dense/csr/csc; every non-leaf level dropped in turn, flatten, one absent level; "
              "pairwise-covering sample of bootstrap_factor {0.3,0.6,1} x iterations {1,8} x runners-up {0,3} x chunk {5,18} x "
